@@ -39,10 +39,16 @@ PROPS = {
                    'positional arity from required to all positional binds, surplus positionals with *args, keywords with '
                    '**kw) for all signature sizes; _verify is verified to collect exactly the undeclared-interface failure '
                    'plus every per-element failure in order and to raise the single Invalid / MultipleInvalid listing '
-                   'exactly those. The per-element decision table _verify_element is an assumed contract, checked bounded '
-                   'against inspect.Signature.bind on all signature pairs with <=2 parameters per kind.',
-        level_note='Assumed contracts: _verify_element (bounded), implementedBy/providedBy (C01), namesAndDescriptions (C15), '
-                   'exception constructors. Keyword-only parameters of an implementation are outside the quantifier.',
+                   'exactly those. _verify_element is verified from its real body against the decision table of the statement: a missing '
+                   'attribute fails unless it is a non-method looked for on a class; a non-method only has to be present; method '
+                   'descriptors and builtins (no signature) pass; a function is described with the implied self dropped exactly when a '
+                   'class is verified as a class, a bound method through its function; a property on a class passes; anything else has '
+                   'to be callable; and whenever a signature was obtained the element fails exactly when _incompat objects (same predicate '
+                   'symbol as in the contract of _incompat). The end-to-end behaviour is additionally checked bounded against '
+                   'inspect.Signature.bind on all signature pairs with <=2 parameters per kind.',
+        level_note='Oracles: getattr / type predicates / callable on the candidate; fromFunction, fromMethod, getSignatureInfo by the contract of C18; '
+                   'implementedBy/providedBy (C01), namesAndDescriptions (C15), exception constructors assumed. Keyword-only parameters of an '
+                   'implementation are outside the quantifier.',
     ),
     'C12': dict(
         title='Interfaces have a total, hash-consistent, process-independent order',
